@@ -88,6 +88,14 @@ def handle (line : String) : String :=
           let nm := if ctx.abstract then none else some "x"
           some (Spec.declCase b (Spec.ofDerivs nm ds) ctx)
     toString all.size ++ "\t" ++ "\t".intercalate (cases.map fun (t, d) => rec [t, d])
+  | ["c03", "specs", seed, count] =>
+    let rec goS : Nat → Nat → List (String × String) → List (String × String)
+      | 0, _, acc => acc.reverse
+      | n+1, s, acc =>
+        let r := Spec.randSpecs s
+        goS n r.2 (Spec.specCase r.1 :: acc)
+    let cases := goS count.toNat! (Spec.lcg (seed.toNat! + 23)) []
+    "\t".intercalate (cases.map fun (t, d) => rec [t, d])
   | ["c03", "rand", seed, count, maxlen] =>
     let rec go3 : Nat → Nat → List (String × String) → List (String × String)
       | 0, _, acc => acc.reverse
